@@ -254,6 +254,38 @@ def run_case(ctx, desc):
             ctx.violation("interpolation-warns", "metric was interpolated but no warning was emitted")
     metric = r
 
+    # ---- the same query after one registered variable has been replaced (overwrite=True): the answer must follow the
+    # registry as it is *now* (no stale selection or interpolation may survive a re-registration)
+    if desc["dseed"] % 3 == 0 and desc["registry"]:
+        sub, lst = desc["registry"][desc["dseed"] % len(desc["registry"])]
+        nm0 = lst[desc["dseed"] % len(lst)][0]
+        newname = nm0 + "_new"
+        ds[newname] = (ds[nm0].dims, ds[nm0].values * 2 + 0.25)
+        ctx.judged(("requery-after-overwrite", level, len(q)), True)
+        try:
+            g.set_metrics(tuple(sub), newname, overwrite=True)
+            M2 = Model(dict(desc, registry=[[sb, [[newname if n == nm0 else n, p] for n, p in ls]] for sb, ls in desc["registry"]]), ds)
+            lvl2, cands2 = M2.acceptable(q)
+            with warnings.catch_warnings():
+                warnings.simplefilter("ignore")
+                r2 = g.get_metric(arr, q)
+            ok2 = any(c[2] and same_by_name(r2, c[1]) for c in cands2)
+            if not ok2:
+                for c in cands2:
+                    if not c[2] and set(r2.dims) == set(c[1].dims):
+                        rv = r2.transpose(*c[1].dims).values
+                        if np.all(rv >= c[1].values - 1e-12) and np.all(rv <= c[3].values + 1e-12):
+                            ok2 = True
+                            break
+            if not ok2:
+                ctx.violation("get_metric-follows-current-registry", f"after set_metrics({sub}, {newname!r}, overwrite=True) replacing {nm0}: the "
+                                                                     f"metric returned for {q} is none of the {len(cands2)} candidates of the updated registry")
+                return
+            metric = r2
+        except Exception as e:
+            ctx.violation("get_metric-follows-current-registry", f"re-registration or re-query raised {type(e).__name__}: {str(e)[:200]}")
+            return
+
     # ---- operations defined through that metric -------------------------------------------
     cm = M.cm
     # integrate: sum of data*metric, any axis order
